@@ -182,11 +182,15 @@ class Mode:
             return z3.If(x >= 0, x, -x)
         return abs(x)
 
-    def close(self, a, b, tol=None, scale=None):
-        """|a-b| <= tol*max(|a|,|b|[,scale]) ; None (NaN) only matches None."""
+    def close(self, a, b, tol=None, scale=None, exact=False):
+        """|a-b| <= tol*max(|a|,|b|[,scale]) ; None (NaN) only matches None.
+        exact=True: an algebraic identity -- proved as a == b over the reals, compared with the
+        tolerance only in the floating-point replay."""
         if a is None or b is None:
             return (a is None and b is None) if not self.symbolic else z3.BoolVal(a is None and b is None)
         a, b = self.t(a), self.t(b)
+        if exact and self.symbolic:
+            return a == b
         tol = self.tol if tol is None else tol
         if self.symbolic:
             d = a - b
